@@ -111,12 +111,17 @@ theorem view03_passNet (n : CNetlist) : Edif.view03 (passNet n) = Edif.view03 n 
 
 /-! ### the theorem -/
 
-/-- **export_readable** — C17's "hence" on the models.  For every netlist `n` with top instance `t`
-    whose names are inside C17's quantifier (`NameHyp`), if the netlist after the naming pre-pass
-    satisfies the residual (non-naming) clauses of the EDIF model's well-formedness, then the TEXT the
-    writer lays out for it is accepted by the reader — tokenizer, s-expression reader, `ofSExp` — and
-    the netlist read back shows the view of the ORIGINAL `n`: the same libraries, cells, ports,
-    instances, nets and the same original names. -/
+/-- **export_readable** — C17's "hence" on the models, CONDITIONAL on `Residual`.  For every netlist `n`
+    with top instance `t` whose names are inside `NameHyp` (every element named; sibling names different
+    and free of `"`, CR, LF; identifiers that exist before the pass legal and their written forms
+    pairwise different; scopes not astronomically large), IF the netlist after the naming pre-pass
+    satisfies `Residual` — which contains, besides the structural clauses, three clauses about names /
+    identifiers that are exactly the open findings (`busLength`: compose_parse.bus-bit-identifier-too-long;
+    `scalarPlain`: compose_parse.cable-name-bracket-index; `busBracket`: compose_parse.backslash-bus-cable) —
+    then the TEXT the writer lays out for it is accepted by the reader and the netlist read back shows the
+    view of the ORIGINAL `n`, original names included.  In short: readable provided the three pinned name
+    classes are avoided (see `export_readable_outside_pinned_classes` for the statement with the two
+    groups of hypotheses separated). -/
 theorem export_readable (n : CNetlist) (prog ver : Option Edif.Str) (t : CInst) (li di : Nat)
     (y mo d h mi s : Nat) (hn : NameHyp n t)
     (hr : Residual (passNet n) prog ver (passTop t) li di) (h0 : Edif.ScalarLower0 (passNet n)) :
@@ -144,6 +149,54 @@ theorem passNet_naming_clauses (n : CNetlist) (t : CInst) (hn : NameHyp n t) :
   exact ⟨fun p hpp => named_of_scope (hp.ports l hl d hd) hpp, (fromPrepass_named_distinct (hp.ports l hl d hd)).2,
     fun i hi => named_of_scope (hp.insts l hl d hd) hi, (fromPrepass_named_distinct (hp.insts l hl d hd)).2,
     fun c hc => named_of_scope (hp.cables l hl d hd) hc, (fromPrepass_named_distinct (hp.cables l hl d hd)).2⟩
+
+/-! ### the same, with the residual split into "avoids the pinned name classes" and "structure" -/
+
+/-- the three clauses of `Residual` that concern names / identifiers — each is the negation of an open
+    finding's sub-domain -/
+structure AvoidsPinnedClasses (n : CNetlist) : Prop where
+  /-- not compose_parse.cable-name-bracket-index: a scalar net is not named like a bus bit `x[3]` -/
+  scalarPlain : ∀ l ∈ n.libs, ∀ d ∈ l.defs, ∀ c ∈ d.cables, c.wires.length = 1 → c.isArray = false →
+    (Edif.sepName (Edif.nmOf c.data)).1 = none
+  /-- not compose_parse.backslash-bus-cable: the reader splits `[k]` off the per-wire name of a bus -/
+  busBracket : ∀ l ∈ n.libs, ∀ d ∈ l.defs, ∀ c ∈ d.cables, ¬ (c.wires.length = 1 ∧ c.isArray = false) →
+    ∀ k, k < c.wires.length → Edif.bracketAllowed (Edif.bitName (Edif.nmOf c.data) (k + c.lower)) = true
+  /-- not compose_parse.bus-bit-identifier-too-long: the per-wire identifier of a bus fits the limit -/
+  busLength : ∀ l ∈ n.libs, ∀ d ∈ l.defs, ∀ c ∈ d.cables, ¬ (c.wires.length = 1 ∧ c.isArray = false) →
+    ∀ k, k < c.wires.length → (Edif.idOf c.data).length + (Edif.natStr (k + c.lower)).length + 2 ≤ 255
+
+/-- the clauses of `Residual` that have nothing to do with names -/
+structure Structural (n : CNetlist) (prog ver : Option Edif.Str) (t : CInst) (li di : Nat) : Prop where
+  portWidth : ∀ l ∈ n.libs, ∀ d ∈ l.defs, ∀ p ∈ d.ports, 1 ≤ p.width ∧ (p.isArray = false → p.width = 1)
+  instRef : ∀ L l, n.libs[L]? = some l → ∀ D d, l.defs[D]? = some d → ∀ i ∈ d.insts,
+    ∃ li di l2 rd, i.ref = some (li, di) ∧ n.libs[li]? = some l2 ∧ l2.defs[di]? = some rd ∧ Edif.Before L D li di
+  instProps : ∀ l ∈ n.libs, ∀ d ∈ l.defs, ∀ i ∈ d.insts,
+    i.data.get? Edif.kPROPS = none ∨
+      ∃ ps, i.data.get? Edif.kPROPS = some (.list ps) ∧
+        ∀ v ∈ ps, ∃ t, Edif.decodeProp v = some t ∧ Edif.PropOK t.1 t.2.1 t.2.2
+  cableWires : ∀ l ∈ n.libs, ∀ d ∈ l.defs, ∀ c ∈ d.cables, c.wires ≠ []
+  cablePins : ∀ l ∈ n.libs, ∀ d ∈ l.defs, ∀ c ∈ d.cables, ∀ w ∈ c.wires, ∀ pin ∈ w, Edif.PinWF n.libs d pin
+  pinsOnce : ∀ l ∈ n.libs, ∀ d ∈ l.defs, (d.cables.flatMap (fun c => c.wires.flatten)).Nodup
+  status : Edif.StatusOK n.data prog ver
+  top : n.top = some t
+  tref : t.ref = some (li, di)
+  ttarget : ∃ l d, n.libs[li]? = some l ∧ l.defs[di]? = some d
+
+theorem residual_of_parts {n : CNetlist} {prog ver : Option Edif.Str} {t : CInst} {li di : Nat}
+    (ha : AvoidsPinnedClasses n) (hs : Structural n prog ver t li di) : Residual n prog ver t li di :=
+  { portWidth := hs.portWidth, instRef := hs.instRef, instProps := hs.instProps, cableWires := hs.cableWires,
+    cablePins := hs.cablePins, pinsOnce := hs.pinsOnce, scalarPlain := ha.scalarPlain, busBracket := ha.busBracket,
+    busLength := ha.busLength, status := hs.status, top := hs.top, tref := hs.tref, ttarget := hs.ttarget }
+
+/-- **export_readable_outside_pinned_classes** — names inside `NameHyp`, the three pinned name classes
+    avoided, the netlist structurally sound ⇒ the written text is accepted by the reader and shows the
+    original names. -/
+theorem export_readable_outside_pinned_classes (n : CNetlist) (prog ver : Option Edif.Str) (t : CInst) (li di : Nat)
+    (y mo d h mi s : Nat) (hn : NameHyp n t) (ha : AvoidsPinnedClasses (passNet n))
+    (hs : Structural (passNet n) prog ver (passTop t) li di) (h0 : Edif.ScalarLower0 (passNet n)) :
+    ∃ text n', Edif.composeE [y, mo, d, h, mi, s] (passNet n) = .ok text ∧ Edif.readEdif text = .ok n' ∧
+      Edif.view03 n' = Edif.view03 n :=
+  export_readable n prog ver t li di y mo d h mi s hn (residual_of_parts ha hs) h0
 
 end Spydr.Names.Bridge
 
